@@ -154,7 +154,8 @@ void harness(void)
     ASSERT(n_up_alloc == 0 && n_up_dealloc == 0, "move ctor: no upstream traffic");
     ASSERT(IT(cur_iteration)(L2) == cur, "C12: destination continues in the same iteration");
     for (int i = 0; i < NIT; ++i) ASSERT(IT(top)(L2, i) == tops[i], "C12: destination has every stack top of the source");
-    { uint64_t sz; ASSERT(IT(block)(L2, &sz) == B && sz == bs, "C12: destination owns the block"); (void)sz; }
+    { uint64_t scratch = HEAP_BASE + 2 * OBJ - 8;      /* out-parameters must live in the modelled heap */
+      ASSERT(IT(block)(L2, scratch) == B && H64(scratch) == bs, "C12: destination owns the block"); }
     ASSERT(H8(wa) == wv, "C12: move does not touch the memory");
     STOP_IS_FAILURE = 1;
     IT(dtor)(L);
